@@ -264,9 +264,9 @@ PROPS = {
         "partial": "crash freedom is sampled (byte-level mutations of every message type and of proposals), not proved; the rollback half is proved on the model",
     },
     "C04": {
-        "module": ["GoatProofs.C04", "GoatProofs.C04I", "GoatProofs.C04L"],
+        "module": ["GoatProofs.C04", "GoatProofs.C04I", "GoatProofs.C04L", "GoatProofs.C04S", "GoatProofs.C04O"],
         "theorems": [
-            "Goat.C04L.go_sizes", "Goat.C04L.credited_tx_not_node_sized",
+            "Goat.C04L.go_sizes", "Goat.C04L.credited_tx_not_node_sized", "Goat.C04S.compress_size", "Goat.C04S.hashBA_size", "Goat.C04S.dsha256_length", "Goat.C04O.out32_dsha256",
             "Goat.C04.C04_exact",
             "Goat.C04.C04_malformed_rejected",
             "Goat.C04.C04_alias_rejected",
